@@ -29,8 +29,95 @@ HARNESS_PER_FILE = 24
 # manual by hand; the check asserts the corrected template.
 ERRATA = {}
 ERRATA_NOTES = []
-def erratum(name, ops, op, why):
-    ERRATA[(name, ops)] = op; ERRATA_NOTES.append('%s %s: %s' % (name, ops, why))
+def erratum(name, ops, why, op=None, new_ops=None, drop=False):
+    ERRATA[(name, ops)] = None if drop else dict(op=op, ops=new_ops); ERRATA_NOTES.append('%s %s: %s' % (name, ops, why))
+
+for _x, _sf in (('W', '0'), ('X', '1')):
+    for _n in ('and', 'ands'):
+        erratum(_n, '%sd|%sSP, %sn, %sm, {sop #n}' % (_x, 'W' if _x == 'W' else '', _x, _x), 'AND/ANDS (shifted register) take Rd of the ZR class, not SP (C6.2.12)', new_ops='%sd, %sn, %sm, {sop #n}' % (_x, _x, _x))
+for _n, _sz, _tail in (('ldtrsb', '00', '10'), ('ldtrsh', '01', '10'), ('ldursb', '00', '00'), ('ldursh', '01', '00')):
+    erratum(_n, 'Wd, [Xn|SP, #offS]', 'opc=11 selects the 32-bit variant, the DB has W and X swapped', op='%s111000|110|offS:9|%s|Rn|Rd' % (_sz, _tail))
+    erratum(_n, 'Xd, [Xn|SP, #offS]', 'opc=10 selects the 64-bit variant, the DB has W and X swapped', op='%s111000|100|offS:9|%s|Rn|Rd' % (_sz, _tail))
+erratum('ret', 'Xn', 'RET is 1101011 0010 11111 000000 Rn 00000 (bit 25 set)', op='11010110|010|11111|0|00000|Rn|00000')
+for _x, _sz in (('W', '10'), ('X', '11')):
+    for _n, _l, _o0 in (('cas', 0, 0), ('casa', 1, 0), ('casal', 1, 1), ('casl', 0, 1)):
+        erratum(_n, '%ss, %sd, [Xn|SP]' % (_x, _x), 'CAS is size 0010001 L 1 Rs o0 11111 Rn Rt (bit 23 set)', op='%s001000|1%d1|Rs|%d|11111|Rn|Rd' % (_sz, _l, _o0))
+erratum('subps', 'Xd, Xn|SP, Xm|SP', 'SUBPS sets flags: S (bit 29) = 1', op='10111010|110|Rm|0|00000|Rn|Rd')
+for _n, _o in (('bif', '11'), ('bit', '10'), ('bsl', '01')):
+    erratum(_n, 'Vx.16B, Vn.16B, Vm.16B', 'three-same logical group is 0 Q 1 01110 opc2 1 ... (bit 24 clear)', op='01101110|%s|1|Vm|00011|1|Vn|Vx' % _o)
+erratum('dup', 'Vd.2S, Wn', 'imm5 = 00100 for S elements', op='00001110|00|0|00100|00001|1|Rn|Vd')
+erratum('dup', 'Vd.4S, Wn', 'imm5 = 00100 for S elements', op='01001110|00|0|00100|00001|1|Rn|Vd')
+erratum('dup', 'Vd.2D, Xn', 'imm5 = 01000 for D elements', op='01001110|00|0|01000|00001|1|Rn|Vd')
+erratum('fabd', 'Vd.2S, Vn.2S, Vm.2S', 'FABD is 0 Q 1 01110 1 sz 1 Rm 11010 1 (bit 21 set)', op='00101110|10|1|Vm|11010|1|Vn|Vd')
+erratum('fabd', 'Vd.4S, Vn.4S, Vm.4S', 'FABD 4S: Q = 1, bit 21 set', op='01101110|10|1|Vm|11010|1|Vn|Vd')
+erratum('fabd', 'Vd.2D, Vn.2D, Vm.2D', 'FABD is 0 Q 1 01110 1 sz 1 Rm 11010 1 (bit 21 set)', op='01101110|11|1|Vm|11010|1|Vn|Vd')
+erratum('facge', 'Dd, Dn, Dm', 'scalar three-same: bit 21 set', op='01111110|01|1|Vm|11101|1|Vn|Vd')
+erratum('facgt', 'Dd, Dn, Dm', 'scalar three-same: bit 21 set', op='01111110|11|1|Vm|11101|1|Vn|Vd')
+erratum('fmla', 'Vx.4S, Vn.4S, Vm.S[#idx]', 'single precision by element: 1:sz = 10', op='01001111|10|idx[0]|Vm|0001|idx[1]|0|Vn|Vx')
+erratum('fmls', 'Vx.4S, Vn.4S, Vm.S[#idx]', 'single precision by element: 1:sz = 10', op='01001111|10|idx[0]|Vm|0101|idx[1]|0|Vn|Vx')
+erratum('fmul', 'Vd.4S, Vn.4S, Vm.S[#idx]', 'single precision by element: 1:sz = 10', op='01001111|10|idx[0]|Vm|1001|idx[1]|0|Vn|Vd')
+erratum('fsqrt', 'Sd, Sn', 'type = 00 for single precision', op='00011110|00|10000|11100|00|Vn|Vd')
+erratum('fsqrt', 'Dd, Dn', 'type = 01 for double precision', op='00011110|01|10000|11100|00|Vn|Vd')
+erratum('cmeq', 'Vd.t, Vn.t, #0', 'CMEQ (zero) has U = 0; the DB template is the one of CMLE (zero)', op='0Q001110|sz|10000|01001|10|Vn|Vd')
+for _n, _b in (('sqxtun', '01111110'),):
+    for _r, _sz in (('Bd, Hn', '00'), ('Hd, Sn', '01'), ('Sd, Dn', '10')):
+        erratum(_n, _r, 'SQXTUN is U = 1, opcode 10010 (the DB template is the one of SQXTN)', op='%s|%s|10000|10010|10|Vn|Vd' % (_b, _sz))
+erratum('sqxtun', 'Vd.ta, Vn.tb', 'SQXTUN is U = 1, opcode 10010', op='00101110|sz|10000|10010|10|Vn|Vd')
+erratum('sqxtun2', 'Vx.ta, Vn.tb', 'SQXTUN2 is U = 1, opcode 10010', op='01101110|sz|10000|10010|10|Vn|Vx')
+erratum('uqshrn', 'Vd.ta, Vn.tb, #n', 'UQSHRN has U = 1', op='00101111|0|immh:4|immb:3|10010|1|Vn|Vd')
+erratum('uqshrn2', 'Vx.ta, Vn.tb, #n', 'UQSHRN2 has U = 1', op='01101111|0|immh:4|immb:3|10010|1|Vn|Vx')
+erratum('sqdmull', 'Vd.ta, Vn.tb, Vm.tb', 'SQDMULL (vector) opcode is 1101 00 (the DB template is the one of SQDMULH)', op='00001110|sz|1|Vm|11010|0|Vn|Vd')
+erratum('sqdmull2', 'Vd.ta, Vn.tb, Vm.tb', 'SQDMULL2 (vector) opcode is 1101 00', op='01001110|sz|1|Vm|11010|0|Vn|Vd')
+erratum('crc32x', 'Xd, Xn, Xm', 'CRC32X is Wd, Wn, Xm', new_ops='Wd, Wn, Xm')
+erratum('crc32cx', 'Xd, Xn, Xm', 'CRC32CX is Wd, Wn, Xm', new_ops='Wd, Wn, Xm')
+erratum('ldaxrh', 'Xd, [Xn|SP]', 'LDAXRH has no X form', drop=True)
+erratum('stlxrh', 'Wd, Xs, [Xn|SP]', 'STLXRH stores a W register', drop=True)
+erratum('stxrh', 'Wd, Xs, [Xn|SP]', 'STXRH stores a W register', drop=True)
+for _n in ('ldset', 'ldseta', 'ldsetal', 'ldsetl'):
+    erratum(_n, 'Xs, Wd, [Xn|SP]', 'mixed X/W operands do not exist', drop=True)
+erratum('xpaclri', 'Xd', 'XPACLRI has no operand', drop=True)
+for _o in ('Vd.4S, Vn.4H', 'Vd.2D, Vn.2S'):
+    erratum('fcvtn', _o, 'FCVTN narrows: the operands are reversed in the DB (the fcvtn Vd.4H, Vn.4S records exist as well)', drop=True)
+for _o in ('Vd.4S, Vn.8H', 'Vd.2D, Vn.4S'):
+    erratum('fcvtn2', _o, 'FCVTN2 narrows: the operands are reversed in the DB', drop=True)
+for _o in ('Sd, Sn, Sm', 'Dd, Dn, Dm', 'Hd, Hn, Hm'):
+    erratum('frecpx', _o, 'FRECPX has two operands', drop=True)
+
+def erratum_rules(name, opstr, op, t):
+    """programmatic DB corrections (each class checked against the ARM ARM); returns (opstr, op, t, note or None)"""
+    note = None
+    if name in ('ld4', 'st4') and '[#idx]' in opstr and opstr.endswith('@'):
+        new = op.replace('|001101|110|', '|001101|111|') if name == 'ld4' else op.replace('|001101|100|', '|001101|101|')
+        if new != op: op = new; note = 'LD4/ST4 (single structure, post-index) have R (bit 21) = 1; the DB rows are copies of LD3/ST3'
+    if name in ('ld3', 'st3') and re.search(r'#off==(16|32)\]@', opstr) and opstr.startswith('3x'):
+        opstr = opstr.replace('#off==16', '#off==24').replace('#off==32', '#off==48'); note = 'LD3/ST3 (multiple structures) post-index immediate is 24 / 48 bytes'
+    if (name.startswith('sqdmlsl') or name.startswith('sqdmlal')) and opstr.startswith('Vx.') and '[#idx]' in opstr and op[:8] in ('00011111', '01011111'):
+        op = op[:3] + '0' + op[4:]; note = 'vector by-element form is 0 Q 0 01111 (bit 28 clear); bit 28 marks the scalar form'
+    if name in ('sqrshrun', 'sqrshrun2') and '|10011|1|' in op:
+        op = op.replace('|10011|1|', '|10001|1|'); note = 'SQRSHRUN opcode is 10001 (10011 is SQRSHRN)'
+    if name in ('bfmlalb', 'bfmlalt') and op.endswith('|idx[2]|1|Vn|Vx'):
+        op = op.replace('|idx[2]|1|Vn|Vx', '|idx[2]|0|Vn|Vx'); note = 'by-element form has bit 10 clear'
+    if name == 'fcmla' and '|Vm|1|imm:2|1|' in op:
+        op = op.replace('|Vm|1|imm:2|1|', '|Vm|0|imm:2|1|'); note = 'FCMLA (by element) is ... Rm 0 rot 1 H 0 (bit 15 clear)'
+    if t and re.match(r'^[01]{2,}\|', op) and op[1] == '0' and '.' not in t:
+        ts = [x for x in t.split() if x != '~']
+        if ts and all(x in ('16B', '8H', '4S', '2D') for x in ts):
+            t = ' '.join({'16B': '8B', '8H': '4H', '4S': '2S'}[x] for x in ts if x != '2D'); note = 'Q = 0 record lists the 128-bit arrangements in its t list'
+    return opstr, op, t, note
+
+# valid forms that AsmJit refuses altogether (no operand combination is accepted): nothing to check, counted separately
+NOT_ACCEPTED = {
+    ('chkfeat', ''): 'AsmJit wants the X16 operand spelled out',
+    ('stlxr', 'Wd, Xs, [Xn|SP]'): 'BaseAtomicOp demands equal register widths (Ws, Xt cannot be written)',
+    ('sqdmlal', 'Sx, Hn, Vm.H[#idx]'): 'scalar by-element form not implemented', ('sqdmlal', 'Dx, Sn, Vm.S[#idx]'): 'scalar by-element form not implemented',
+    ('sqdmlsl', 'Sx, Hn, Vm.H[#idx]'): 'scalar by-element form not implemented', ('sqdmlsl', 'Dx, Sn, Vm.S[#idx]'): 'scalar by-element form not implemented',
+    ('sqdmull', 'Sd, Hn, Vm.H[#idx]'): 'scalar by-element form not implemented', ('sqdmull', 'Dd, Sn, Vm.S[#idx]'): 'scalar by-element form not implemented',
+    ('fcvtn', 'Vd.8B, Vn.4H, Vm.4H'): 'FP8 form not implemented', ('fcvtn', 'Vd.16B, Vn.8H, Vm.8H'): 'FP8 form not implemented',
+    ('fcvtn', 'Vd.8B, Vn.4S, Vm.4S'): 'FP8 form not implemented', ('fcvtn2', 'Vx.16B, Vn.4S, Vm.4S'): 'FP8 form not implemented',
+}
+# forms inside the region of a known finding where every accepted input violates the property: covered by the hand-written
+# companion harness of the finding instead (an always-failing case cannot be guarded by an assumption without becoming vacuous)
+KF_EXCLUDED = {}
 
 class Skip(Exception):
     pass
@@ -384,6 +471,9 @@ def gen_record(rec, sib):
                 else:
                     A(('%s_v <= 15' % v, 'condition is one of the 16 condition codes'))
                     env[nm] = ('arch_cond(uint32_t(%s_v))' % v, 4)
+            elif nm == 'imm1' and name in ('addg', 'subg'):
+                A(('%s_v <= 1008 && (%s_v & 15) == 0' % (v, v), 'offset is a multiple of 16 in 0..1008'))
+                env[nm] = ('uint32_t(%s_v >> 4)' % v, bits)
             elif nm in ('imm', 'immZ', 'nzcv', 'immr', 'imms', 'imm1', 'imm2', 'op1', 'op2', 'Cn', 'Cm', 'CRn', 'CRm', 'idx') and rec['imm'] is None:
                 if nm in ('immr', 'imms') and len(ops) >= 1 and ops[0].kind == 'gp' and not ops[0].x:
                     A(('%s_v < 32' % v, 'immediate below the register size')); bits_ = bits
@@ -422,6 +512,13 @@ def gen_record(rec, sib):
     if name in ('smax', 'smin', 'umax', 'umin') and not rec['iid'].endswith('_v'):
         gps = [k for k, o in enumerate(ops) if o.kind == 'gp']
         L.append('#if KF_C02I'); L.append('      V_ASSUME(%s);' % ' && '.join('gp_zr_ok(o%d_id)' % k for k in gps)); L.append('#endif')
+    kf_norefuse = None
+    if name in ('cmp', 'cmn') and len(ops) >= 2 and ops[0].kind == 'gp' and ops[1].kind == 'gp':
+        L.append('#if KF_C02L'); L.append('      V_ASSUME(gp_zr_ok(o0_id) && gp_zr_ok(o1_id));'); L.append('#endif')
+    if name in ('neg', 'negs') and any(o.kind == 'shift' for o in ops):
+        si = [k for k, o in enumerate(ops) if o.kind == 'shift'][0]
+        L.append('#if KF_C02M'); L.append('      V_ASSUME(o%d_sop != 3);' % si); L.append('#endif')
+    if name in ('smax', 'smin', 'umax', 'umin') and not rec['iid'].endswith('_v') and not any(o.kind == 'imm' for o in ops): kf_norefuse = 'C02I'
     if name in ('cinc', 'cinv', 'cneg'):
         ci = [k for k, o in enumerate(ops) if o.kind == 'imm'][0]
         L.append('#if KF_C02F'); L.append('      V_ASSUME(o%d_v != 16);' % ci); L.append('#endif')
@@ -475,7 +572,9 @@ def gen_record(rec, sib):
         if True:
             L.append('        V_ASSERT(%s < %d, "%s: element index fits the %d index bits");' % (env[fname][0], 1 << nb, tag, nb))
     L.append('        V_WITNESS("%s-ok");' % tag)
-    if g.refusable:
+    if g.refusable and kf_norefuse:
+        L.append('      }'); L.append('#if !KF_%s' % kf_norefuse); L.append('      else V_WITNESS("%s-refused");' % tag); L.append('#endif')
+    elif g.refusable:
         L.append('      } else V_WITNESS("%s-refused");' % tag)
     else:
         L.append('      }')
@@ -503,6 +602,7 @@ def main():
     def skip(rc, why):
         skipped[why] += 1; skipped_ex.setdefault(why, '%s %s' % (rc['name'], rc['opstr']))
     good = []
+    n_errata = [0]
     rid = 0
     for rc in recs:
         rc['rid'] = rid; rid += 1
@@ -511,16 +611,30 @@ def main():
         rc['iid'] = iid
         key = (rc['name'], rc['opstr'])
         op = rc['r']['op']
+        t = rc['r'].get('t') or rc['r'].get('ta.tb')
+        if key in NOT_ACCEPTED: skip(rc, 'valid form that AsmJit refuses altogether: ' + NOT_ACCEPTED[key]); continue
         if key in ERRATA:
-            if ERRATA[key] is None: skip(rc, 'DB record dropped (erratum)'); continue
-            op = ERRATA[key]
-        rc['op'] = op
+            if ERRATA[key] is None: skip(rc, 'DB record does not exist in the architecture (erratum, dropped)'); continue
+            if ERRATA[key]['op']: op = ERRATA[key]['op']
+            if ERRATA[key]['ops']: rc['opstr'] = ERRATA[key]['ops']
+            n_errata[0] += 1
+        if op.startswith('0Q0'):
+            op = ('00' if t and t.split()[0] in ('8B', '4H', '2S') else '01') + op[2:]
+        rc['opstr'], op, t, note = erratum_rules(rc['name'], rc['opstr'], op, t)
+        if note:
+            n_errata[0] += 1
+            if note not in ERRATA_NOTES: ERRATA_NOTES.append(note)
+        rc['op'] = op; rc['tfix'] = t
+        if rc['name'] == 'mov' and rc['cat'] == 'GP': skip(rc, 'mov aliases (hand-written harnesses h_mov_reg / h_mov_imm)'); continue
+        if rc['name'] in ('ldrsb', 'ldrsh') and re.search(r'\](!|@)$', rc['opstr']): skip(rc, 'known finding C02C: every accepted input is mis-encoded (companion h_ldst_kf_C02C)'); continue
+        if rc['name'] in ('sqdmulh', 'sqrdmulh', 'sqrdmlah', 'sqrdmlsh') and re.match(r'^[HS][dx], [HS]n, Vm\.', rc['opstr']): skip(rc, 'known finding C02N: every accepted input is mis-encoded (companion h_simd_kf_C02N)'); continue
+        if rc['name'] == 'xar': skip(rc, 'known finding C02O: every accepted input is mis-encoded (companion h_simd_kf_C02O)'); continue
         try:
             rc['mask'], rc['val'], rc['pieces'] = parse_template(op)
             toks = split_ops(rc['opstr'])
             rc['ops'] = [parse_operand(t, rc) for t in toks]
             if len(rc['ops']) > 6: raise Skip('more than 6 operands')
-            t = rc['r'].get('t') or rc['r'].get('ta.tb')
+            t = rc['tfix']
             rc['t'] = t.split() if t else None
             rc['imm'] = rc['r'].get('imm')
             if any(o.kind in ('va', 'vlist') and getattr(o, 't', 't') in ('t', 'ta', 'tb') for o in rc['ops']) and not rc['t']:
@@ -590,7 +704,9 @@ def main():
         for fn, hname, rl in index: f.write('  (%r, %r, %r),\n' % (fn, hname, rl))
         f.write(']\nSKIPPED = [\n')
         for why, n in skipped.most_common(): f.write('  (%d, %r, %r),\n' % (n, why, skipped_ex[why]))
-        f.write(']\nERRATA = %r\n' % ERRATA_NOTES)
+        f.write(']\nN_ERRATA = %d\nERRATA = %r\n' % (n_errata[0], ERRATA_NOTES))
+    if os.environ.get('C02_RIDS'):
+        json.dump({str(rc['rid']): [rc['name'], rc['opstr'], rc.get('op', rc['r']['op']), rc['r'].get('t') or rc['r'].get('ta.tb') or ''] for rc in recs}, open(os.environ['C02_RIDS'], 'w'))
     print('db records %d, A64 %d, forms %d, generated %d in %d harnesses / %d files' % (n_db, n_arch, n_named, len(out_cases), len(harnesses), len(files)))
     for why, n in skipped.most_common(40): print('  skipped %4d  %s   e.g. %s' % (n, why, skipped_ex[why]))
 
